@@ -4,6 +4,8 @@ import (
 	crand "crypto/rand"
 	"encoding/base64"
 	"fmt"
+	"reflect"
+	"strings"
 
 	"github.com/miekg/dns"
 
@@ -20,23 +22,100 @@ func algName(a uint8) string {
 
 // c10Set is an RRset in model and library form.
 type c10Set struct {
-	recs []*model.Rec
+	recs    []*model.Rec
+	respell uint64 // non-zero: names are written with RFC 1035 \X escapes in front of some letters
+	zoneLen int    // labels of the owner that belong to the zone name (left in their plain spelling: Verify compares the signer name with the owner's text)
 }
 
 func (s c10Set) build() []dns.RR {
 	var out []dns.RR
-	for _, r := range s.recs {
+	for i, r := range s.recs {
 		rr, err := buildAny(r)
 		if err != nil {
 			return nil
+		}
+		if s.respell != 0 {
+			seed := s.respell + uint64(i)*977
+			mapNames(rr, func(n string) string {
+				seed = seed*6364136223846793005 + 1442695040888963407
+				return escapeLetters(n, seed)
+			})
+			// one spelling of the owner for the whole RRset (IsRRset compares owners as strings)
+			rr.Header().Name = s.ownerSpelling(r.Owner)
 		}
 		out = append(out, rr)
 	}
 	return out
 }
 
+func (s c10Set) ownerSpelling(o model.Name) string {
+	if s.respell == 0 || s.zoneLen > len(o) {
+		return o.Pres()
+	}
+	k := len(o) - s.zoneLen
+	if k == 0 {
+		return o.Pres()
+	}
+	return escapeLetters(model.Name(o[:k]).Pres(), s.respell) + model.Name(o[k:]).Pres()
+}
+
+// escapeLetters rewrites a presentation name so that some letters are written as \X (RFC 1035 s.5.1:
+// "\X where X is any character other than a digit"): the same name, another spelling.
+func escapeLetters(n string, seed uint64) string {
+	var sb strings.Builder
+	for i := 0; i < len(n); i++ {
+		c := n[i]
+		if c == '\\' {
+			if i+3 < len(n) && n[i+1] >= '0' && n[i+1] <= '9' {
+				sb.WriteString(n[i : i+4])
+				i += 3
+			} else if i+1 < len(n) {
+				sb.WriteString(n[i : i+2])
+				i++
+			} else {
+				sb.WriteByte(c)
+			}
+			continue
+		}
+		if c >= 'a' && c <= 'z' || c >= 'A' && c <= 'Z' {
+			seed = seed*6364136223846793005 + 1442695040888963407
+			if seed>>33%3 == 0 {
+				sb.WriteByte('\\')
+			}
+		}
+		sb.WriteByte(c)
+	}
+	return sb.String()
+}
+
+// mapNames applies f to the owner and to every domain-name field of rr (found by struct tag).
+func mapNames(rr dns.RR, f func(string) string) {
+	h := rr.Header()
+	h.Name = f(h.Name)
+	v := reflect.ValueOf(rr).Elem()
+	t := v.Type()
+	for i := 0; i < t.NumField(); i++ {
+		tag := t.Field(i).Tag.Get("dns")
+		if !strings.Contains(tag, "domain-name") {
+			continue
+		}
+		fv := v.Field(i)
+		switch fv.Kind() {
+		case reflect.String:
+			fv.SetString(f(fv.String()))
+		case reflect.Slice:
+			for k := 0; k < fv.Len(); k++ {
+				if fv.Index(k).Kind() == reflect.String {
+					fv.Index(k).SetString(f(fv.Index(k).String()))
+				}
+			}
+		}
+	}
+}
+
 func (s c10Set) clone() c10Set {
 	var o c10Set
+	o.respell, o.zoneLen = s.respell, s.zoneLen
 	for _, r := range s.recs {
 		o.recs = append(o.recs, cloneRec(r))
 	}
@@ -112,6 +191,9 @@ func c10Case(w *core.W, j int) {
 	if j%5 == 3 {
 		zone = model.Name{[]byte("a.b\\c"), []byte("Zone"), []byte("test")} // escaped octets in the zone name
 	}
+	if j%5 == 4 {
+		zone = model.Name{[]byte("z^ne[1]"), []byte("T@st`x")} // octets whose 0x20-partner is not a letter either
+	}
 	k, err := getKey(alg, bits, zone.Pres(), 257, j%2)
 	if err != nil {
 		w.Inconclusive("keygen:" + err.Error())
@@ -125,6 +207,9 @@ func c10Case(w *core.W, j int) {
 	owner := append(model.Name{g.Label()}, zone...)
 	if j%7 == 5 {
 		owner = append(model.Name{g.Label(), g.Label()}, zone...)
+	}
+	if j%5 == 4 && j%7 != 5 {
+		owner = append(model.Name{[]byte("h~st{2}")}, zone...)
 	}
 	if wild {
 		owner = append(model.Name{[]byte("*")}, zone...)
@@ -252,6 +337,28 @@ func c10Case(w *core.W, j int) {
 				vs = append(vs, variant{"rdata-name-case", v5, sig})
 			}
 		}
+		{
+			v7 := set.clone()
+			v7.respell, v7.zoneLen = uint64(j)*2654435761+1, len(zone)
+			sv := dns.Copy(sig).(*dns.RRSIG)
+			sv.Hdr.Name = v7.ownerSpelling(owner)
+			vs = append(vs, variant{"escaped-letter-spelling", v7, sv})
+			// and the other way round: signed from the escaped spelling, verified against the plain one
+			var s7 *dns.RRSIG
+			var e7 error
+			if !w.Guard("RRSIG.Sign", wit, func() {
+				s7 = &dns.RRSIG{Algorithm: alg, KeyTag: k.Key.KeyTag(), SignerName: escapeLetters(zone.Pres(), uint64(j)+7), Inception: 1_700_000_000, Expiration: 1_800_000_000}
+				e7 = s7.Sign(k.Priv, v7.build())
+			}) && e7 == nil {
+				s7.SignerName = sig.SignerName // the RRSIG as it would be read back from the wire
+				s7.Hdr.Name = sig.Hdr.Name
+				if ok, why := c10ModelAccepts(s7, k.Key, set); !ok {
+					w.Violation(key("sign-output-not-canonical/escaped-letter-spelling"), "signing an RRset whose names are spelled with \\X escapes does not sign the RFC 4034 canonical form: "+why, wit)
+				} else {
+					vs = append(vs, variant{"signed-from-escaped-letter-spelling", set, s7})
+				}
+			}
+		}
 		if wild {
 			for _, extra := range []model.Name{{[]byte("host")}, {[]byte("A"), []byte("b")}, {[]byte("x.y"), []byte("z"), []byte("w")}} {
 				exp := append(extra.Clone(), zone...)
@@ -301,6 +408,25 @@ func c10Case(w *core.W, j int) {
 	mods("rrsig.SignerName-parent", func(s *dns.RRSIG) { s.SignerName = model.Name(zone[1:]).Pres() })
 	mods("rrsig.owner", func(s *dns.RRSIG) { s.Hdr.Name = "x" + s.Hdr.Name })
 	mods("rrsig.class", func(s *dns.RRSIG) { s.Hdr.Class = 3 })
+	// one octet of the RRSIG owner / DNSKEY owner replaced by its 0x20-partner where neither is a letter
+	flipNonLetter := func(n string) (string, bool) {
+		for i := 0; i < len(n); i++ {
+			switch n[i] {
+			case '^', '~', '[', '{', ']', '}', '`':
+				if i > 0 && n[i-1] == '\\' {
+					continue
+				}
+				return n[:i] + string(n[i]^0x20) + n[i+1:], true
+			}
+		}
+		return n, false
+	}
+	if fn, ok := flipNonLetter(sig.Hdr.Name); ok {
+		mods("rrsig.owner-0x20-nonletter", func(s *dns.RRSIG) { s.Hdr.Name = fn })
+	}
+	if fn, ok := flipNonLetter(k.Key.Hdr.Name); ok {
+		alts = append(alts, alt{"key.owner-0x20-nonletter", sig, func() *dns.DNSKEY { kk := dns.Copy(k.Key).(*dns.DNSKEY); kk.Hdr.Name = fn; return kk }(), set})
+	}
 	rawSig, _ := base64.StdEncoding.DecodeString(sig.Signature)
 	nflips := 12
 	if w.Tier == "thorough" {
